@@ -13,6 +13,9 @@ PID = "C29"
 THEOREM_MODULES = ["GuppyVerif.Props.C29"]
 DRIVER = "C29"
 RULE = (
+    "`tospan` = span.to_span on AST nodes at random byte offsets of lines with multi-byte characters (é 字 ß π € 😀), real vs model, "
+    "and vs the character positions the offsets were derived from; `prog` = real Guppy functions through check() whose undefined "
+    "name is preceded by non-ASCII strings/identifiers (span must sit on the token; then rendered three-way); further "
     "three request kinds, all answered by the REAL code (diagnostic.py/span.py from the working tree), the Lean model "
     "(Model/Render.lean through drv_c29) and an oracle that re-reads the rendered text: "
     "`wrap` = diagnostic.wrap on random texts (words of 1..90 chars, hyphens, tabs, all str.splitlines boundaries, blank "
@@ -34,7 +37,8 @@ ASSUMPTIONS = [
 ]
 UNMODELLED = [
     "MietteRenderer",
-    "to_span on AST nodes (spans are given as Span objects)",
+    "to_span's file/line_offset annotation lookup (the byte-offset -> column conversion IS modelled: charColumn/toSpan)",
+    "display width of wide (East Asian) or combining characters: columns count code points",
     "Loc.__str__'s normalize_ipython_dummy_files (file names are plain)",
     "start.line < 1 (Python computes a negative prefix_lines; Loc documents lines as starting at 1)",
     "Unicode whitespace other than ASCII whitespace and the str.splitlines boundaries",
@@ -45,7 +49,8 @@ MANIFEST = {
     "source that satisfy span_shift_safe; every numbered line shows the source line of that number minus a common amount of pure "
     "indentation; highlight markers sit exactly under the spanned columns after trimming; visible characters of every "
     "label/message are preserved in order; wrapped lines respect the width unless they are a single word; every word stays whole "
-    "on one line (wrapping only at whitespace — holds after fix commits 55bf698/0f8cc8a/8389350). The model is tied to the working "
+    "on one line (wrapping only at whitespace — holds after fix commits 55bf698/0f8cc8a/8389350); to_span converts AST byte offsets on "
+    "character boundaries to the number of characters before them, so markers sit under the token itself (after fix d720416). The model is tied to the working "
     "tree's diagnostic.py on every run by same-input correspondence with the real renderer plus an independent re-reading of the "
     "rendered text (quick ~3000 cases, thorough ~60000).",
     "level_note": "Trusted: Lean kernel + propext/Classical.choice/Quot.sound; the correspondence is sampling; CPython's textwrap is "
@@ -134,6 +139,8 @@ def _real(req) -> str:
     from guppylang_internals.span import SourceMap
 
     try:
+        if req["kind"] == "tospan":
+            return _real_tospan(req)
         if req["kind"] == "wrap":
             return _show(D.wrap(req["text"], req["width"], initial_indent=req["ii"], subsequent_indent=req["si"]))
         sm = SourceMap()
@@ -146,6 +153,33 @@ def _real(req) -> str:
         return _show(r.buffer)
     except BaseException as e:  # noqa: BLE001
         return _exc(e)
+
+
+_tospan_n = [0]
+
+
+def _real_tospan(req) -> str:
+    """drive the real span.to_span on an AST node whose file is registered in linecache"""
+    import ast
+    import linecache
+
+    from guppylang_internals.ast_util import annotate_location
+    from guppylang_internals.span import to_span
+
+    _tospan_n[0] += 1
+    fn = f"<verif-c29-{_tospan_n[0]}>"
+    lines = req["lines"]
+    linecache.cache[fn] = (sum(map(len, lines)), None, list(lines), fn)
+    try:
+        l1, b1, l2, b2 = req["pos"]
+        node = ast.Pass()
+        node.lineno, node.col_offset = l1, b1
+        node.end_lineno, node.end_col_offset = (l2 or None), (b2 or None)
+        annotate_location(node, "".join(lines), fn, 1)
+        sp = to_span(node)
+        return f"span {sp.start.line} {sp.start.column} {sp.end.line} {sp.end.column}"
+    finally:
+        linecache.cache.pop(fn, None)
 
 
 # ------------------------------------------------------------------ protocol
@@ -164,6 +198,8 @@ def _ospan(sp) -> str:
 
 
 def _line(req) -> str:
+    if req["kind"] == "tospan":
+        return "(tospan (" + " ".join(_codes(l) for l in req["lines"]) + ") (" + " ".join(map(str, req["pos"])) + "))"
     if req["kind"] == "wrap":
         return f"(wrap {req['width']} {_codes(req['text'])} {_codes(req['ii'])} {_codes(req['si'])})"
     if req["kind"] == "snip":
@@ -180,6 +216,8 @@ def _line(req) -> str:
 
 
 def _decode(reply: str):
+    if reply.startswith("span"):
+        return [reply]
     if not reply.startswith("ok"):
         return None
     return ["".join(chr(int(x)) for x in m.split()) for m in re.findall(r"\(([^()]*)\)", reply)]
@@ -295,6 +333,14 @@ def _check_snippet(out, lines, sp, label, maxln, primary, prefix, errs, what):
 
 def _oracle(req, real_lines, real_reply, errs):
     """append to errs every way in which the REAL output violates the property's literal reading"""
+    if req["kind"] == "tospan":
+        # literal reading: a node that starts after `c1` characters of its line and ends after `c2`
+        # characters of its line has exactly these columns
+        if req.get("expect") is not None:
+            want = "span " + " ".join(map(str, req["expect"]))
+            if real_reply != want:
+                errs.append(f"to_span gives `{real_reply}` for a node at character positions `{want}`")
+        return
     if req["kind"] == "wrap":
         if real_lines is None:
             errs.append("wrap raised " + real_reply)
@@ -394,7 +440,7 @@ def _take_wrapped(out, text, errs, what):
 
 # ------------------------------------------------------------------ generators
 
-WORDCH = "abcdefgxyzABQ0189_.,:;!?()[]{}'\"/\\<>=+*#@é字"
+WORDCH = "abcdefgxyzABQ0189_.,:;!?()[]{}'\"/\\<>=+*#@é字😀"
 
 
 def _word(rng, maxlen=12):
@@ -492,8 +538,43 @@ def _label(rng):
     return _text(rng, rng.choice([1, 2, 3, 6, 12, 20]), breaks=rng.random() < 0.3)
 
 
+NONASCII = "é字ßπ😀ñ€"
+
+
+def _gen_tospan(rng):
+    n = rng.choice([1, 2, 3, 5])
+    lines = []
+    for _ in range(n):
+        ind = " " * rng.choice([0, 4, 8, 16])
+        toks = []
+        for _ in range(rng.randrange(1, 6)):
+            w = _word(rng, 8)
+            if rng.random() < 0.5:
+                w = "".join(rng.choice(NONASCII) if rng.random() < 0.4 else ch for ch in w) or rng.choice(NONASCII)
+            toks.append(w)
+        lines.append(ind + " ".join(toks) + rng.choice(["\n", "\n", "\n", "\r\n", ""]))
+    l1 = rng.randrange(1, n + 1)
+    l2 = rng.randrange(l1, n + 1)
+    t1, t2 = lines[l1 - 1].rstrip("\r\n"), lines[l2 - 1].rstrip("\r\n")
+    if rng.random() < 0.8:  # character boundaries (what `ast` reports)
+        c1 = rng.randrange(0, len(t1) + 1)
+        c2 = rng.randrange(c1 if l1 == l2 else 0, len(t2) + 1)
+        b1, b2 = len(t1[:c1].encode()), len(t2[:c2].encode())
+        same = l1 == l2 and rng.random() < 0.3
+        pos = (l1, b1, 0 if same else l2, b2)
+        # `end_col_offset or col_offset`: an end offset 0 falls back to the start offset
+        exp = (l1, c1, l2, c2 if b2 else len(t2.encode()[:b1].decode(errors="ignore"))) if (b2 or l1 == l2) else None
+        if exp is not None and (exp[2], exp[3]) < (exp[0], exp[1]):
+            exp = None
+        return {"kind": "tospan", "lines": lines, "pos": pos, "expect": exp}
+    pos = (l1, rng.randrange(0, len(t1.encode()) + 4), rng.choice([0, l2, l2, n + 1]), rng.randrange(0, len(t2.encode()) + 4))
+    return {"kind": "tospan", "lines": lines, "pos": pos, "expect": None}
+
+
 def _gen(rng):
     k = rng.random()
+    if k < 0.08:
+        return _gen_tospan(rng)
     if k < 0.3:
         return {
             "kind": "wrap",
@@ -551,6 +632,9 @@ def _norm(r):
     def sp(x):
         return None if x is None else tuple(x)
     r = dict(r)
+    if "pos" in r:
+        r["pos"] = tuple(r["pos"])
+        r["expect"] = sp(r.get("expect"))
     if "span" in r:
         r["span"] = sp(r["span"])
     if "diag" in r:
@@ -566,6 +650,8 @@ def _nontrivial(req, real_lines):
         return False
     if req["kind"] == "wrap":
         return len(real_lines) >= 2
+    if req["kind"] == "tospan":
+        return not all(l.isascii() for l in req["lines"])
     lines = req["content"].splitlines()
     spans = []
     if req["kind"] == "snip":
@@ -581,9 +667,69 @@ def _nontrivial(req, real_lines):
     return False
 
 
+def _gen_prog(rng):
+    """a Guppy function whose first error is an undefined name preceded on its line by non-ASCII text;
+    returns (source without prelude, 1-based line of the token within it, token)"""
+    tok = rng.choice(["undefined_name", "zz", "missing_" + rng.choice("abc"), "nö_such", "値"])
+    na = "".join(rng.choice(NONASCII + "ab ") for _ in range(rng.randrange(0, 6)))
+    depth = rng.choice([0, 0, 1, 3, 4])
+    pre = rng.choice([f's = "{na}"; ', f'ü{rng.randrange(9)} = 1; ', f'é = "{na}"; ü = 2; ', ""])
+    form = rng.choice(["x = {t}", "x = 1 + {t}", "x = ({t}, 2)", "return {t}"])
+    post = rng.choice(["", "  # " + na, " + 1" if "return" not in form else ""])
+    body = []
+    ind = "    "
+    for d in range(depth):
+        body.append(ind + "if True:")
+        ind += "    "
+    body.append(ind + pre + form.format(t=tok) + post)
+    src = "@guppy\ndef f() -> int:\n" + "\n".join(body) + "\n    return 0\n"
+    return src, 2 + len(body), tok
+
+
+def _prog_cases(ctx, n):
+    """real programs through check(): the span of the reported error must sit on the token; returns snip
+    requests (rendered three-way by the main loop) built from the REAL spans"""
+    import feed
+    from guppylang_internals.span import to_span
+
+    out = []
+    for _ in range(n):
+        src, rel_line, tok = _gen_prog(ctx.rng)
+        m = feed.load(src)
+        try:
+            full = feed.PRELUDE + src
+            kind, err = feed.check_outcome(m.f)
+            d = getattr(err, "error", None)
+            if kind != "user" or d is None or d.span is None:
+                ctx.count("prog:" + src, nontrivial=False, kind="prog:" + kind)
+                continue
+            sp = to_span(d.span)
+            line_no = feed.PRELUDE.count("\n") + rel_line
+            text = full.splitlines()[line_no - 1]
+            c = text.index(tok)
+            want = (line_no, c, line_no, c + len(tok))
+            got = (sp.start.line, sp.start.column, sp.end.line, sp.end.column)
+            ctx.count("prog:" + src, nontrivial=not text[:c].isascii(), kind="prog:" + type(d).__name__)
+            if got != want:
+                ctx.violation(
+                    "prog:" + src,
+                    f"error span of `{tok}` is {got}, the token is at {want} (characters) on line {text!r}",
+                    {"program": full, "token": tok, "span": got, "expected": want},
+                )
+            label = d.rendered_span_label
+            out.append({"kind": "snip", "content": full, "span": got, "label": label, "maxln": got[2],
+                        "primary": True, "prefix": 2})
+        except Exception as e:  # noqa: BLE001
+            ctx.count("prog:" + src, nontrivial=False, kind="prog:harness-" + type(e).__name__)
+        finally:
+            feed.unload(m)
+    return out
+
+
 def tie(ctx):
     reqs = _load_corpus()
     ncorpus = len(reqs)
+    reqs += _prog_cases(ctx, ctx.n(60, 600))
     if ctx.replay_in and "request" in ctx.replay_in.get("replay", {}):
         reqs.append(_norm(ctx.replay_in["replay"]["request"]))
     n = ctx.n(3000, 60000)
